@@ -1,7 +1,7 @@
 (* C04 — Compaction is invisible to readers.
    Only statements closed by [exact]; proofs live in proof/Compaction*.v.
 
-   [g]                      volume TTL and offset width (4, or 5 with -tags 5BytesOffset)
+   [g]                      volume TTL (the offset width, 4 or 5 bytes, no longer matters: makeupDiff repaired)
    [h1] [h2]                writes / deletes before the compaction and between Compact and CommitCompact
                             (each with the clock reading that becomes AppendAtNs)
    [al]                     Scan = Volume.Compact, Index = Volume.Compact2
@@ -21,34 +21,33 @@ Local Open Scope N_scope.
    on the compacted volume as on the never-compacted one -- provided
      no empty payload is written                                           (finding 0),
      the TTL filter of the copy loop drops only what a read already refuses (finding 1),
-     both .dat files stay within 32 GiB                                     (finding 3, 5-byte offsets),
-     the integrity check of the reload leaves the new files alone           (finding 2, scan-based copy). *)
+     the integrity check of the reload leaves the new files alone           (finding 2, scan-based copy).
+   (The former hypothesis "both .dat files within 32 GiB" went away with the repair of makeupDiff.) *)
 Theorem c04_invisible_partial : forall g al now_s now_r ord h1 h2,
   Permutation ord (default_ord g h1 h2) ->
   has_empty (h1 ++ h2) = false ->
   ttl_consistent (g_vttl g) now_s now_r h1 = true ->
-  within_32g g al now_s ord h1 h2 = true ->
   reload_noop g al now_s ord h1 h2 = true ->
   forall id, read_of (compacted g al now_s ord h1 h2) now_r id = read_of (twin g h1 h2) now_r id.
 Proof. exact invisible_partial. Qed.
 Print Assumptions c04_invisible_partial.
 
 (* For the algorithm the volume server uses (Compact2, index-based) and histories of writes and
-   deletes, the last hypothesis follows from the others: the reload check changes nothing. *)
+   deletes, the last hypothesis always holds: the reload check changes nothing.  So for Compact2
+   the partial theorem has hypotheses on the history only. *)
 Theorem c04_index_reload_noop : forall g now_s ord h1 h2,
   Permutation ord (default_ord g h1 h2) ->
   no_pad (h1 ++ h2) = true ->
-  within_32g g Index now_s ord h1 h2 = true ->
   reload_noop g Index now_s ord h1 h2 = true.
 Proof. exact index_reload_noop. Qed.
 Print Assumptions c04_index_reload_noop.
 
-(* The full statement is false; each hypothesis is needed on its own (the other three hold). *)
+(* The full statement is false; each hypothesis is needed on its own (the other two hold). *)
 (* finding 0: an empty blob reads as present (0 bytes) without compaction, as absent after it *)
 Theorem c04_invisible_refuted_empty : exists g al now_s now_r ord h1 h2 id,
   Permutation ord (default_ord g h1 h2) /\
   ttl_consistent (g_vttl g) now_s now_r h1 = true /\
-  within_32g g al now_s ord h1 h2 = true /\ reload_noop g al now_s ord h1 h2 = true /\
+  reload_noop g al now_s ord h1 h2 = true /\
   read_of (compacted g al now_s ord h1 h2) now_r id <> read_of (twin g h1 h2) now_r id.
 Proof.
   exact (ex_intro _ g4 (ex_intro _ Index (ex_intro _ 1000 (ex_intro _ (1001 * sec) (ex_intro _ []
@@ -60,7 +59,7 @@ Print Assumptions c04_invisible_refuted_empty.
 Theorem c04_invisible_refuted_ttl : exists g al now_s now_r ord h1 h2 id,
   Permutation ord (default_ord g h1 h2) /\
   has_empty (h1 ++ h2) = false /\
-  within_32g g al now_s ord h1 h2 = true /\ reload_noop g al now_s ord h1 h2 = true /\
+  reload_noop g al now_s ord h1 h2 = true /\
   read_of (compacted g al now_s ord h1 h2) now_r id <> read_of (twin g h1 h2) now_r id.
 Proof.
   exact (ex_intro _ g4 (ex_intro _ Index (ex_intro _ 1000 (ex_intro _ (1001 * sec) (ex_intro _ []
@@ -72,7 +71,6 @@ Print Assumptions c04_invisible_refuted_ttl.
 Theorem c04_invisible_refuted_scan : exists g al now_s now_r ord h1 h2 id,
   Permutation ord (default_ord g h1 h2) /\
   has_empty (h1 ++ h2) = false /\ ttl_consistent (g_vttl g) now_s now_r h1 = true /\
-  within_32g g al now_s ord h1 h2 = true /\
   read_of (compacted g al now_s ord h1 h2) now_r id <> read_of (twin g h1 h2) now_r id.
 Proof.
   exact (ex_intro _ g4 (ex_intro _ Scan (ex_intro _ 1000 (ex_intro _ (1001 * sec) (ex_intro _ []
@@ -80,23 +78,20 @@ Proof.
 Qed.
 Print Assumptions c04_invisible_refuted_scan.
 
-(* finding 3: 5-byte offsets, a write beyond 32 GiB during the compaction is lost *)
-Theorem c04_invisible_refuted_fifth_byte : exists g al now_s now_r ord h1 h2 id,
-  Permutation ord (default_ord g h1 h2) /\
-  has_empty (h1 ++ h2) = false /\ ttl_consistent (g_vttl g) now_s now_r h1 = true /\
-  reload_noop g al now_s ord h1 h2 = true /\
-  read_of (compacted g al now_s ord h1 h2) now_r id <> read_of (twin g h1 h2) now_r id.
-Proof.
-  exact (ex_intro _ g5 (ex_intro _ Index (ex_intro _ 1000 (ex_intro _ (1001 * sec) (ex_intro _ [2; 3]
-        (ex_intro _ w_hi_h1 (ex_intro _ w_hi_h2 (ex_intro _ 2 refuted_fifth_byte_neq)))))))).
-Qed.
-Print Assumptions c04_invisible_refuted_fifth_byte.
+(* the repaired former finding 3: a write beyond 32 GiB (hole in the old .dat) while the
+   compaction runs reads the same on both volumes, for both iteration orders of the map *)
+Theorem c04_beyond_32g_repaired : forall ord, ord = [2; 3] \/ ord = [3; 2] ->
+  reload_noop g4 Index 1000 ord w_hi_h1 w_hi_h2 = true /\
+  map (read_of (compacted g4 Index 1000 ord w_hi_h1 w_hi_h2) (1001 * sec)) [1; 2; 3] =
+  map (read_of (twin g4 w_hi_h1 w_hi_h2) (1001 * sec)) [1; 2; 3] /\
+  read_of (twin g4 w_hi_h1 w_hi_h2) (1001 * sec) 2 = Some (1%Z, view_of (nd 2 [7] 8 1000 (0, 0))).
+Proof. exact beyond_32g_ok. Qed.
+Print Assumptions c04_beyond_32g_repaired.
 
 (* the witnesses in full *)
 Theorem c04_witness_empty :
   Permutation [] (default_ord g4 w_empty_h1 []) /\
   ttl_consistent (g_vttl g4) 1000 (1001 * sec) w_empty_h1 = true /\
-  within_32g g4 Index 1000 [] w_empty_h1 [] = true /\
   reload_noop g4 Index 1000 [] w_empty_h1 [] = true /\
   read_of (compacted g4 Index 1000 [] w_empty_h1 []) (1001 * sec) 1 = None /\
   read_of (twin g4 w_empty_h1 []) (1001 * sec) 1 = Some (0%Z, blank_view 0).
@@ -107,7 +102,6 @@ Theorem c04_witness_scan :
   Permutation [] (default_ord g4 w_scan_h1 []) /\
   has_empty (w_scan_h1 ++ []) = false /\
   ttl_consistent (g_vttl g4) 1000 (1001 * sec) w_scan_h1 = true /\
-  within_32g g4 Scan 1000 [] w_scan_h1 [] = true /\
   check_files (compacted_files g4 Scan 1000 [] w_scan_h1 []) = (0%nat, Some 48, false) /\
   read_of (compacted g4 Scan 1000 [] w_scan_h1 []) (1001 * sec) 1 = None /\
   read_of (twin g4 w_scan_h1 []) (1001 * sec) 1 = Some (1%Z, view_of (nd 1 [7] 8 1000 (0, 0))).
@@ -141,7 +135,6 @@ Example c04_example : forall al,
   let ord := default_ord g4 ex_h1 ex_h2 in
   has_empty (ex_h1 ++ ex_h2) = false /\
   ttl_consistent (g_vttl g4) 1000 (1001 * sec) ex_h1 = true /\
-  within_32g g4 al 1000 ord ex_h1 ex_h2 = true /\
   reload_noop g4 al 1000 ord ex_h1 ex_h2 = true /\
   map (fun k => option_map fst (read_of (compacted g4 al 1000 ord ex_h1 ex_h2) (1001 * sec) k)) [1; 2; 3; 4; 5]
   = [None; Some 1%Z; None; Some 1%Z; None] /\
